@@ -1,25 +1,777 @@
-"""C06 — partially reliable channels drop only whole messages and never disturb others."""
+"""C06 — partially reliable channels drop only whole messages and never disturb others.
+
+Components:
+  world    recorded fault schedules over two REAL endpoints, replayed through the Lean endpoint automaton
+           (harness/sctp_check.py) + the C06/C01/C02/recovery oracles on the real run;
+  abandon  `_maybe_abandon` on arbitrary sent/outbound queues vs `Tx.maybeAbandon` (function level);
+  advack   `_update_advanced_peer_ack_point` vs `Tx.updateAdvAck` (function level);
+  fwd      `_receive_forward_tsn_chunk` on arbitrary receiver states vs `rxFwd` — the pure restatement
+           (Model/Sctp/Forward.lean) that the non-interference theorems are about;
+  rxdata   `_receive_data_chunk` on arbitrary receiver states vs `rxData` (the other half of `rxRun`, the
+           receiver the integrity theorem `pr_integrity_arrivals` is about).
+"""
+from __future__ import annotations
+
+import random
+
+from harness.check import Component
 from harness import sctp_check as S
 
 LEAN_TARGETS = ["Aiortc.Props.C06"]
-DRIVERS = ["Sctp"]
-RULE = ("recorded fault schedules over two REAL endpoints with reliable, retransmit-limited and lifetime-limited channels "
-        "(ordered/unordered, messages up to 20000 bytes so that only part of a message is in flight when abandoned), "
-        "healed and probed; replayed through the Lean automaton; non-trivial = a message was delivered")
+DRIVERS = ["Sctp", "SctpPr"]
+MANIFEST = {
+    "technique": "Lean 4 theorems (structural induction / invariants, all inputs) about the executable SCTP model + trace "
+                 "correspondence of that model with two real endpoints under recorded fault schedules + function-level "
+                 "differential runs of _maybe_abandon / _update_advanced_peer_ack_point / _receive_forward_tsn_chunk + "
+                 "property oracles on the real behaviour",
+    "text": "Proved for all queues, histories and arrival lists: _maybe_abandon marks exactly the fragments of one message "
+            "(B fragment through E fragment, including the unsent remainder moved from the outbound queue) and keeps the "
+            "flight accounting exact (abandon_whole_message*, abandon_flight*) and, unconditionally, never loses/reorders/alters a chunk of any channel "
+            "(abandon_never_alters_queue); reliable fragments never trigger it "
+            "(reliable_never_abandoned); the advanced ack point pops exactly the abandoned prefix, the FORWARD TSN carries the "
+            "last popped ssn per ordered stream and stays pending until lastSacked catches up (adv_ack_only_over_abandoned, "
+            "forward_tsn_streams, forward_tsn_pending, forward_tsn_sent_first); prune_chunks removes exactly the maximal runs "
+            "lacking a fragment with TSN <= cum, keeps the others in order, frees exactly the removed bytes (prune_rule, prune_runs, "
+            "prune_keeps_complete); a FORWARD TSN leaves unlisted streams that wait for nothing <= cum untouched and never moves a "
+            "listed stream's expected ssn backwards (reliable_unaffected, forward_tsn_unlisted_stream, forward_tsn_seq_not_backwards); "
+            "whatever a stream yields under ANY interleaving of add_chunk/prune_chunks/sequence-number updates/pop_messages is "
+            "(stream, ppid, bytes) of ONE message the peer sent on that stream, never a splice (pr_integrity, pop_sound), and the same for the "
+            "whole receiver (_mark_received + streams) under arbitrary arrival lists of DATA and honest-or-not FORWARD TSN chunks "
+            "(pr_integrity_arrivals); after pruning "
+            "no orphan of a skipped message heads the queue and a complete fresh message alone in the queue is delivered "
+            "(pr_recovers_partial).",
+    "note": "Duplicate-freeness, sending order on ordered channels, 'delivered again after the network recovers' and the "
+            "cross-endpoint part of non-interference (a reliable stream never waits for a TSN <= the peer's advanced ack point) are "
+            "NOT Lean theorems (pr_delivery_full, pr_recovers_full are kept as unproved Props): they are checked on every real run by "
+            "oracle_c06 / oracle_c01 / oracle_c02 / oracle_recovers over mixed reliable + retransmit-limited + lifetime-limited "
+            "channels with messages up to 20000 bytes (> cwnd), and the model the theorems are about is replayed step by step against "
+            "both real endpoints.",
+    "design_ref": "DESIGN.md §2 C06, §2.0",
+}
+ASSUMPTIONS = [
+    "abandon_whole_message*: the sent queue followed by the outbound queue holds whole messages as _send produces them (IsMsg: B flag on "
+    "the first and only the first fragment, E flag on the last and only the last); proved to hold for every non-empty _send "
+    "(send_fragments_are_messages), its preservation by the other sender functions is covered by the trace correspondence only",
+    "abandon_flight*: _flight_size equals the sum of the book sizes of the in-flight fragments of the sent queue and nothing in the "
+    "outbound queue is in flight (FlightOk) before the call",
+    "pr_integrity: fewer than 2^32 DATA chunks are sent on the association (TSNs are not reused), and every fragment added to a stream "
+    "is the wire image of a fragment made by _send for that stream (no corruption — CRC32c, C08 — and the sender never alters "
+    "tsn/sid/ssn/ppid/flags/payload after _send: abandon_keeps_wire for _maybe_abandon, trace correspondence for the rest)",
+    "reliable_unaffected / forward_tsn_unlisted_stream: hypothesis NotWaiting (no run of the stream's reassembly queue lacks a fragment with "
+    "TSN <= cum); that it holds for reliable streams needs the sender side (reliable fragments are never abandoned, so cum only covers "
+    "acknowledged ones) and is established on real runs by the trace correspondence + oracle_c01/c02 on reliable channels sharing the "
+    "association with abandoning channels",
+    "pr_recovers_partial (3): the fresh message is alone in the reassembly queue; that the queue in front of it eventually empties is "
+    "liveness of the pair of endpoints (oracle_recovers)",
+    "lifetimes that are multiples of 125 ms are not generated (the model compares expiry exactly, Python compares floats)",
+]
+TRUSTED_EXTRA = [
+    "Model/Sctp/Forward.lean (rxFwd/fwdStreams, rxData, rxRun) restates Endpoint.receiveForwardTsn / receiveData purely; it is tied to "
+    "the real _receive_forward_tsn_chunk / _receive_data_chunk by the `fwd` / `rxdata` differential components, not by a Lean proof of "
+    "equivalence with the monadic handlers",
+    "StreamOp / runOps (Lemmas/SctpIntegrity.lean) is the list of operations the transport applies to an InboundStream "
+    "(read off _receive_data_chunk, _receive_forward_tsn_chunk and the stream-reset handler); _mark_received in front of it only "
+    "filters arrivals, which pr_integrity already allows",
+    "the deterministic harness around the real endpoints (harness/sctp_sim.py: scripted clock, timers and task queue)",
+]
+RULE = ("world: recorded fault schedules over two REAL endpoints with reliable, retransmit-limited and lifetime-limited channels "
+        "(ordered/unordered, messages up to 20000 bytes so that only part of a message is in flight when abandoned), healed and probed, "
+        "replayed through the Lean automaton; non-trivial = a message was delivered.  abandon/advack/fwd: sender queues and receiver "
+        "states built from random message histories (1-5 fragments, several streams, TSNs near the 2^32 wrap in a quarter of the cases), "
+        "with random bookkeeping flags, split points inside messages, partially received messages and FORWARD TSN points on and off message "
+        "boundaries, plus adversarial states (unsorted queues, inconsistent flags); distinct = distinct case")
 
 
 class World(S.WorldComponent):
     name = "world"
     prop = "C06"
-    theorems = ["abandon_whole_message", "prune_keeps_complete", "reliable_unaffected"]
+    theorems = ["abandon_whole_message", "abandon_whole_message_unsent", "adv_ack_only_over_abandoned", "forward_tsn_pending",
+                "prune_rule", "reliable_unaffected", "pr_integrity", "pr_recovers_partial"]
     mix = [("mixed-pr", False, 4), ("mixed-pr", True, 1)]
-    quick = (32, 300)
-    thorough = (300, 600)
+    quick = (24, 300)
+    thorough = (150, 500)
     oracles = [S.oracle_no_crash, S.oracle_c06, S.oracle_c01, S.oracle_c02, S.oracle_recovers]
 
 
+# ---------------------------------------------------------------------------------------------------------
+# function-level components
+# ---------------------------------------------------------------------------------------------------------
+
+M32 = 2 ** 32
+LAST, FIRST, UNORD = 1, 2, 4
+
+
+def _gt32(a, b):
+    return (a < b and b - a > 2 ** 31) or (a > b and a - b < 2 ** 31)
+
+
+def _gte32(a, b):
+    return a == b or _gt32(a, b)
+
+
+def _gt16(a, b):
+    return (a < b and b - a > 2 ** 15) or (a > b and a - b < 2 ** 15)
+
+
+class _FakeEp:
+    def __init__(self):
+        self.log, self.outbox, self.timers, self.tasks = [], [], [], []
+
+
+def _transport():
+    """A real RTCSctpTransport under the deterministic runtime of harness/sctp_sim.py."""
+    from harness import sctp_sim as sim
+    m = sim.install()
+    ep = _FakeEp()
+    sim._CUR = ep
+    sim._RANDOM[:] = [1, 0]
+    t = m.RTCSctpTransport(sim.DtlsStub(ep, "server"), 5000)
+    return sim, m, t
+
+
+def _drive(coro):
+    try:
+        coro.send(None)
+    except StopIteration:
+        return
+    coro.close()
+    raise RuntimeError("handler suspended")
+
+
+def _history(rng, wrap):
+    """A sender history: list of messages, each a list of fragment dicts with consecutive TSNs."""
+    tsn = 0 if wrap else rng.randrange(M32)
+    nstreams = rng.choice([1, 2, 3])
+    kinds = {}
+    for sid in range(nstreams):
+        kinds[sid] = dict(ordered=rng.random() < 0.65, maxrtx=rng.choice([None, None, 0, 1, 3]),
+                          life=rng.choice([None, None, None, 5, 700]))
+    ssn = {sid: rng.choice([0, 0, 3, 65534, 65535]) for sid in kinds}
+    msgs = []
+    for _ in range(rng.randrange(1, 7)):
+        sid = rng.randrange(nstreams)
+        k = kinds[sid]
+        n = rng.choice([1, 1, 2, 3, 5])
+        frs = []
+        for i in range(n):
+            flags = 0 if k["ordered"] else UNORD
+            if i == 0:
+                flags |= FIRST
+            if i == n - 1:
+                flags |= LAST
+            data = bytes(rng.randrange(256) for _ in range(rng.choice([1, 1, 2, 3])))
+            frs.append(dict(tsn=tsn, sid=sid, ssn=ssn[sid] if k["ordered"] else 0, ppid=rng.choice([51, 53]), flags=flags,
+                            data=data.hex(), maxrtx=k["maxrtx"], life=k["life"]))
+            tsn = (tsn + 1) % M32
+        if k["ordered"]:
+            ssn[sid] = (ssn[sid] + 1) % 65536
+        msgs.append(frs)
+    if wrap:
+        # put the 2^32 wrap on a random chunk boundary of the history (often inside a message)
+        total = sum(len(m) for m in msgs)
+        shift = M32 - rng.randrange(0, total + 1)
+        for m in msgs:
+            for c in m:
+                c["tsn"] = (c["tsn"] + shift) % M32
+    return msgs, kinds
+
+
+# ---- abandon ---------------------------------------------------------------------------------------------
+
+def _sq_fields(c):
+    return [c["tsn"], c["sid"], c["ssn"], c["flags"], int(c["ab"]), int(c["rt"]), int(c["inf"]), c["book"], c["sc"],
+            c["maxrtx"], c["expiry"]]
+
+
+def _sq_show(fields):
+    f = list(fields)
+    f[9] = "n" if f[9] is None else f[9]
+    f[10] = "n" if f[10] is None else f[10]
+    return ".".join(str(x) for x in f)
+
+
+def _q_show(q):
+    return ";".join(_sq_show(c) for c in q) if q else "-"
+
+
+def _mk_queues(rng, now1000, adversarial):
+    msgs, _ = _history(rng, rng.random() < 0.25)
+    chunks = [c for m in msgs for c in m]
+    split = rng.randrange(0, len(chunks) + 1)
+    out = []
+    for idx, c in enumerate(chunks):
+        sent = idx < split
+        expiry = None
+        if c["life"] is not None:
+            # expiry relative to the clock: in the past, now, or in the future
+            expiry = now1000 + rng.choice([-5000, -1, 0, 1, 70000])
+        d = dict(tsn=c["tsn"], sid=c["sid"], ssn=c["ssn"], flags=c["flags"], book=len(c["data"]) // 2,
+                 maxrtx=c["maxrtx"], expiry=expiry, ab=False, rt=False, inf=False, sc=0)
+        if sent:
+            d["sc"] = rng.choice([1, 1, 2, 4])
+            d["inf"] = rng.random() < 0.6
+            d["rt"] = rng.random() < 0.2
+            d["ab"] = rng.random() < 0.1
+        if adversarial:
+            d["flags"] = rng.choice([d["flags"], d["flags"] ^ FIRST, d["flags"] ^ LAST, rng.randrange(8)])
+            d["inf"] = rng.random() < 0.5
+        out.append(d)
+    sentq = [_sq_fields(c) for c in out[:split]]
+    outq = [_sq_fields(c) for c in out[split:]]
+    flight = sum(c[7] for c in sentq if c[6])
+    if adversarial and rng.random() < 0.5:
+        flight = rng.randrange(0, flight + 3)
+    return sentq, outq, flight
+
+
+def _load_queues(m, t, sentq, outq, flight):
+    def mk(f):
+        c = m.DataChunk()
+        c.tsn, c.stream_id, c.stream_seq, c.flags = f[0], f[1], f[2], f[3]
+        c.protocol, c.user_data = 53, b"x" * f[7]
+        c._abandoned, c._retransmit, c._in_flight = bool(f[4]), bool(f[5]), bool(f[6])
+        c._book_size, c._sent_count = f[7], f[8]
+        c._max_retransmits = f[9]
+        c._expiry = None if f[10] is None else f[10] / 1024000.0
+        c._acked, c._misses, c._sent_time = False, 0, None
+        c._src = f
+        return c
+    t._sent_queue.clear()
+    t._outbound_queue.clear()
+    t._sent_queue.extend(mk(f) for f in sentq)
+    t._outbound_queue.extend(mk(f) for f in outq)
+    t._flight_size = flight
+
+
+def _dump_q(q):
+    return [[c.tsn, c.stream_id, c.stream_seq, c.flags, int(c._abandoned), int(c._retransmit), int(c._in_flight), c._book_size,
+             c._sent_count, c._max_retransmits, c._src[10]] for c in q]
+
+
+class Abandon(Component):
+    name = "abandon"
+    theorems = ["abandon_whole_message", "abandon_whole_message_unsent", "abandon_flight", "abandon_flight_unsent", "abandon_noop",
+                "reliable_never_abandoned"]
+
+    def corpus(self):
+        # 3-fragment message, maxRetransmits 0, two fragments sent, the last still in the outbound queue
+        return [dict(now=1024000000, pos=1, flight=2,
+                     sentq=[[10, 1, 0, 2, 0, 0, 1, 1, 1, 0, None], [11, 1, 0, 0, 0, 0, 1, 1, 1, 0, None]],
+                     outq=[[12, 1, 0, 1, 0, 0, 0, 1, 0, 0, None], [13, 1, 1, 3, 0, 0, 0, 1, 0, 0, None]])]
+
+    def cases(self, rng, tier):
+        n = 400 if tier == "quick" else 6000
+        out = []
+        for i in range(n):
+            now = 1000 * rng.choice([1024000, 1024001, 5000000])
+            sentq, outq, flight = _mk_queues(rng, now, adversarial=(i % 5 == 4))
+            if not sentq:
+                continue
+            out.append(dict(now=now, pos=rng.randrange(len(sentq)), flight=flight, sentq=sentq, outq=outq))
+        return out
+
+    def model_line(self, case):
+        return f"sctppr abandon {case['now']} {case['pos']} {case['flight']} {_q_show(case['sentq'])} {_q_show(case['outq'])}"
+
+    def _run(self, case):
+        sim, m, t = _transport()
+        _load_queues(m, t, case["sentq"], case["outq"], case["flight"])
+        sim.Clock.ticks = case["now"] // 1000
+        r = t._maybe_abandon(t._sent_queue[case["pos"]])
+        return bool(r), t._flight_size, _dump_q(t._sent_queue), _dump_q(t._outbound_queue)
+
+    def impl(self, case):
+        r, flight, sq, oq = self._run(case)
+        return f"ok {int(r)} {flight} {_q_show(sq)} {_q_show(oq)}"
+
+    def oracle(self, case, impl_out):
+        """Whole message or nothing (evaluated on the real method's effect only)."""
+        if not impl_out.startswith("ok "):
+            return impl_out[:200]
+        r, flight, sq, oq = self._run(case)
+        before = case["sentq"] + case["outq"]
+        after = sq + oq
+        if [c[:4] for c in before] != [c[:4] for c in after]:
+            return "_maybe_abandon reordered, lost or altered chunks (tsn/sid/ssn/flags)"
+        pos = case["pos"]
+        was = case["sentq"][pos][4]
+        changed = [i for i, (b, a) in enumerate(zip(before, after)) if b != a]
+        newly = [i for i, (b, a) in enumerate(zip(before, after)) if a[4] and not b[4]]
+        if not r:
+            return "returned False but changed state" if changed or flight != case["flight"] or len(sq) != len(case["sentq"]) else None
+        if was:
+            return "chunk already abandoned, yet state changed" if changed or flight != case["flight"] else None
+        # the message around pos according to the B/E flags of the queues
+        lo = pos
+        while lo > 0 and not before[lo][3] & FIRST:
+            lo -= 1
+        hi = pos
+        while hi < len(before) - 1 and not before[hi][3] & LAST:
+            hi += 1
+        wellformed = (all(not before[i][3] & FIRST for i in range(lo + 1, hi + 1)) and bool(before[lo][3] & FIRST)
+                      and bool(before[hi][3] & LAST) and all(not before[i][3] & LAST for i in range(lo, hi)))
+        if not wellformed or any(c[6] or c[4] for c in case["outq"]):
+            return None   # adversarial flags / impossible outbound queue: only the differential run applies
+        if any(not after[i][4] for i in range(lo, hi + 1)):
+            return f"fragments {lo}..{hi} form one message but only part of it is abandoned"
+        if any(i < lo or i > hi for i in changed):
+            return f"abandoning the message at {lo}..{hi} changed another chunk ({changed})"
+        if any(after[i][6] or after[i][5] for i in range(lo, min(hi + 1, len(sq)))):
+            return "an abandoned fragment is still in flight / marked for retransmission"
+        if len(sq) < hi + 1:
+            return "unsent fragments of the abandoned message stay in the outbound queue"
+        if len(sq) != max(len(case["sentq"]), hi + 1):
+            return "chunks of another message were moved out of the outbound queue"
+        consistent = case["flight"] == sum(c[7] for c in case["sentq"] if c[6]) and not any(c[6] for c in case["outq"])
+        if consistent and flight != sum(c[7] for c in sq if c[6]):
+            return f"flight size {flight} is not the sum of the in-flight book sizes afterwards"
+        return None
+
+    def label(self, case, impl_out):
+        p = impl_out.split(" ")
+        if len(p) < 3:
+            return impl_out[:20]
+        moved = len(case["outq"]) - (0 if p[4] == "-" else len(p[4].split(";"))) if len(p) > 4 else 0
+        return f"ret={p[1]}{'-moved' if moved else ''}{'-was' if case['sentq'][case['pos']][4] else ''}"
+
+    def shrink(self, case):
+        for key in ("outq", "sentq"):
+            q = case[key]
+            for i in range(len(q)):
+                if key == "sentq" and (len(q) == 1 or i == case["pos"]):
+                    continue
+                c = dict(case, **{key: q[:i] + q[i + 1:]})
+                if key == "sentq" and i < case["pos"]:
+                    c["pos"] = case["pos"] - 1
+                yield c
+
+
+# ---- advack ----------------------------------------------------------------------------------------------
+
+class AdvAck(Component):
+    name = "advack"
+    theorems = ["adv_ack_only_over_abandoned", "forward_tsn_streams", "forward_tsn_pending"]
+
+    def cases(self, rng, tier):
+        n = 300 if tier == "quick" else 4000
+        out = []
+        for i in range(n):
+            sentq, _, _ = _mk_queues(rng, 1024000000, adversarial=False)
+            # abandon a prefix of whole chunks (sometimes everything, sometimes nothing)
+            k = rng.randrange(0, len(sentq) + 1)
+            for j, c in enumerate(sentq):
+                c[4] = int(j < k or rng.random() < 0.15)
+            base = (sentq[0][0] - 1) % M32 if sentq else rng.randrange(M32)
+            adv = (base - rng.choice([0, 0, 1, 3])) % M32
+            last = (adv + rng.choice([-2, -1, 0, 0, 1])) % M32
+            fstreams = [[sid, rng.randrange(65536)] for sid in rng.sample(range(4), rng.randrange(0, 3))]
+            needed = bool(fstreams) or rng.random() < 0.3
+            out.append(dict(last=last, adv=adv, needed=needed, fstreams=fstreams, sentq=sentq))
+        return out
+
+    def model_line(self, case):
+        fs = ",".join(f"{a}.{b}" for a, b in case["fstreams"]) or "-"
+        return f"sctppr advack {case['last']} {case['adv']} {int(case['needed'])} {fs} {_q_show(case['sentq'])}"
+
+    def _run(self, case):
+        sim, m, t = _transport()
+        _load_queues(m, t, case["sentq"], [], 0)
+        t._last_sacked_tsn, t._advanced_peer_ack_tsn = case["last"], case["adv"]
+        t._forward_tsn_needed = case["needed"]
+        t._forward_tsn_streams = {a: b for a, b in case["fstreams"]}
+        t._forward_tsn_chunk = None
+        t._update_advanced_peer_ack_point()
+        return t
+
+    def impl(self, case):
+        t = self._run(case)
+        fs = ",".join(f"{a}.{b}" for a, b in t._forward_tsn_streams.items()) or "-"
+        ch = t._forward_tsn_chunk
+        fwd = "n" if ch is None else f"{ch.cumulative_tsn}:" + (",".join(f"{a}.{b}" for a, b in ch.streams) or "-")
+        rest = ",".join(str(c.tsn) for c in t._sent_queue) or "-"
+        return f"ok {t._advanced_peer_ack_tsn} {int(t._forward_tsn_needed)} {fs} {fwd} {rest}"
+
+    def oracle(self, case, impl_out):
+        t = self._run(case)
+        before = case["sentq"]
+        rest = [c.tsn for c in t._sent_queue]
+        npop = len(before) - len(rest)
+        if [c[0] for c in before[npop:]] != rest:
+            return "the sent queue was not popped from the head"
+        if any(not c[4] for c in before[:npop]):
+            return "the advanced ack point moved over a chunk that is not abandoned"
+        if npop < len(before) and before[npop][4]:
+            return "an abandoned chunk stays at the head of the sent queue"
+        ch = t._forward_tsn_chunk
+        if npop:
+            if t._advanced_peer_ack_tsn != before[npop - 1][0]:
+                return "advanced ack point is not the TSN of the last popped chunk"
+            if ch is None or ch.cumulative_tsn != before[npop - 1][0]:
+                return "no FORWARD TSN (or a wrong cumulative TSN) after popping abandoned chunks"
+            want = {}
+            for c in before[:npop]:
+                if not c[3] & UNORD:
+                    want[c[1]] = c[2]
+            got = dict(ch.streams)
+            for sid, ssn in want.items():
+                if got.get(sid) != ssn:
+                    return f"FORWARD TSN lists ssn {got.get(sid)} for stream {sid}, last abandoned ordered ssn is {ssn}"
+        caught = _gte32(case["last"], case["adv"])
+        if not npop and case["needed"] and not caught and ch is None:
+            return "a pending FORWARD TSN was not re-armed although the peer has not caught up"
+        if not npop and caught and ch is not None:
+            return "FORWARD TSN re-sent although the peer's cumulative ack has caught up"
+        return None
+
+    def label(self, case, impl_out):
+        p = impl_out.split(" ")
+        return f"needed={p[2]} fwd={'y' if len(p) > 4 and p[4] != 'n' else 'n'}" if len(p) > 4 else impl_out[:20]
+
+
+# ---- fwd -------------------------------------------------------------------------------------------------
+
+def _rc_show(c):
+    return ".".join(str(x) for x in c[:5]) + "." + (c[5] or "-")
+
+
+def _ins_show(ins):
+    if not ins:
+        return "-"
+    return "+".join(f"{sid}/{seq}/" + (";".join(_rc_show(c) for c in cs) if cs else "-") for sid, seq, cs in ins)
+
+
+def _runs(chunks):
+    """maximal runs as prune_chunks sees them (independent re-implementation for the oracle)."""
+    runs = []
+    for c in chunks:
+        if runs and not runs[-1][-1][4] & LAST and not c[4] & FIRST and c[0] == (runs[-1][-1][0] + 1) % M32:
+            runs[-1].append(c)
+        else:
+            runs.append([c])
+    return runs
+
+
+def _waiting(run, cum):
+    first, last = run[0], run[-1]
+    return ((not first[4] & FIRST and _gte32(cum, (first[0] - 1) % M32))
+            or (not last[4] & LAST and _gte32(cum, (last[0] + 1) % M32)))
+
+
+class Fwd(Component):
+    name = "fwd"
+    theorems = ["prune_rule", "prune_keeps_complete", "reliable_unaffected", "forward_tsn_unlisted_stream",
+                "forward_tsn_seq_not_backwards", "pop_sound", "pr_recovers_partial"]
+
+    def corpus(self):
+        # DESIGN.md §2 C06 probe: PR chunk t lost, reliable 2-fragment message (t+1, t+2), t+1 arrived: FORWARD TSN(t)
+        # must not discard the reliable fragment t+1
+        return [dict(last=99, mis=[101], dups=[], cum=100, streams=[[1, 0]],
+                     ins=[[1, 0, []], [2, 0, [[101, 2, 0, 53, 2, "aa"]]]])]
+
+    def cases(self, rng, tier):
+        n = 400 if tier == "quick" else 6000
+        out = []
+        for i in range(n):
+            msgs, kinds = _history(rng, rng.random() < 0.3)
+            chunks = [c for m in msgs for c in m]
+            first = chunks[0]["tsn"]
+            last = (first - 1 - rng.choice([0, 0, 2])) % M32
+            # what arrived: each chunk with probability p, whole messages sometimes
+            p = rng.choice([0.3, 0.6, 0.9])
+            got = [c for c in chunks if rng.random() < p]
+            # cumulative point before the FORWARD TSN: consolidate the received prefix sometimes
+            if rng.random() < 0.5:
+                while got and got[0]["tsn"] == (last + 1) % M32:
+                    last = got[0]["tsn"]
+                    # delivered or still in reassembly: keep it in reassembly only if its message is incomplete
+                    got = got[1:] if rng.random() < 0.5 else got
+                    if got and got[0]["tsn"] == last:
+                        break
+            mis = [c["tsn"] for c in got if _gt32(c["tsn"], last)]
+            ins = {}
+            for sid in kinds:
+                if rng.random() < 0.85:
+                    ins[sid] = [rng.choice([0, 0, 1, 3, 65535]), []]
+            for c in got:
+                ins.setdefault(c["sid"], [0, []])[1].append([c["tsn"], c["sid"], c["ssn"], c["ppid"], c["flags"], c["data"]])
+            if i % 7 == 6:      # adversarial: unsorted queue / odd flags
+                for s in ins.values():
+                    rng.shuffle(s[1])
+                    for c in s[1]:
+                        if rng.random() < 0.3:
+                            c[4] = rng.randrange(8)
+            # FORWARD TSN point: a message boundary, mid-message, before the cumulative point, or far ahead
+            ends = [m[-1]["tsn"] for m in msgs]
+            cum = rng.choice(ends + [rng.choice(chunks)["tsn"], (last - 1) % M32, last, (chunks[-1]["tsn"] + 5) % M32])
+            if any(c["tsn"] < 64 for c in chunks) and chunks[0]["tsn"] > 64 and rng.random() < 0.4:
+                cum = rng.choice([M32 - 1, M32 - 1, 0, M32 - 2])     # FORWARD TSN point right at the wrap
+            listed = {}
+            for m in msgs:
+                c = m[-1]
+                if _gte32(cum, c["tsn"]) and not c["flags"] & UNORD and rng.random() < 0.8:
+                    listed[c["sid"]] = c["ssn"]
+            if rng.random() < 0.15:
+                listed[rng.randrange(4)] = rng.choice([0, 5, 65535])
+            dups = [rng.choice(chunks)["tsn"] for _ in range(rng.choice([0, 0, 1, 2]))]
+            out.append(dict(last=last, mis=mis, dups=dups, cum=cum, streams=[[a, b] for a, b in listed.items()],
+                            ins=[[sid, s[0], s[1]] for sid, s in ins.items()]))
+        return out
+
+    def model_line(self, case):
+        ls = lambda l: ",".join(str(x) for x in l) or "-"
+        st = ",".join(f"{a}.{b}" for a, b in case["streams"]) or "-"
+        return f"sctppr fwd {case['last']} {ls(case['mis'])} {ls(case['dups'])} {case['cum']} {st} {_ins_show(case['ins'])}"
+
+    def _run(self, case):
+        sim, m, t = _transport()
+        t._last_received_tsn = case["last"]
+        t._sack_misordered = set(case["mis"])
+        t._sack_duplicates = list(case["dups"])
+        t._inbound_streams = {}
+        for sid, seq, cs in case["ins"]:
+            s = m.InboundStream()
+            s.sequence_number = seq
+            for c in cs:
+                d = m.DataChunk()
+                d.tsn, d.stream_id, d.stream_seq, d.protocol, d.flags, d.user_data = c[0], c[1], c[2], c[3], c[4], bytes.fromhex(c[5])
+                s.reassembly.append(d)
+            t._inbound_streams[sid] = s
+        msgs = []
+
+        async def receive(stream_id, pp_id, data):
+            msgs.append((stream_id, pp_id, data))
+        t._receive = receive
+        rwnd0 = t._advertised_rwnd
+        ch = m.ForwardTsnChunk()
+        ch.cumulative_tsn = case["cum"]
+        ch.streams = [tuple(x) for x in case["streams"]]
+        _drive(t._receive_forward_tsn_chunk(ch))
+        ins = [[sid, s.sequence_number, [[c.tsn, c.stream_id, c.stream_seq, c.protocol, c.flags, c.user_data.hex()] for c in s.reassembly]]
+               for sid, s in t._inbound_streams.items()]
+        return t, ins, msgs, t._advertised_rwnd - rwnd0
+
+    def impl(self, case):
+        try:
+            t, ins, msgs, delta = self._run(case)
+        except AssertionError:
+            return "crash AssertionError"
+        ls = lambda l: ",".join(str(x) for x in l) or "-"
+        mis = [x for x in case["mis"] if x in t._sack_misordered]   # a set: shown in the order of the input list
+        if len(mis) != len(t._sack_misordered):
+            return "ok set-grew"
+        mm = ",".join(f"{a}.{b}.{c.hex() or '-'}" for a, b, c in msgs) or "-"
+        return f"ok {t._last_received_tsn} {ls(mis)} {ls(t._sack_duplicates)} {delta} {_ins_show(ins)} {mm}"
+
+    def oracle(self, case, impl_out):
+        """Non-interference, prune rule, integrity and byte accounting on the real handler's effect."""
+        if not impl_out.startswith("ok "):
+            return impl_out[:200]
+        t, ins, msgs, delta = self._run(case)
+        if _gte32(case["last"], case["cum"]):
+            same = [[a, b, c] for a, b, c in case["ins"]] == ins and not msgs and delta == 0
+            return None if same else "a duplicate FORWARD TSN changed the streams"
+        before = {sid: (seq, cs) for sid, seq, cs in case["ins"]}
+        after = {sid: (seq, cs) for sid, seq, cs in ins}
+        listed = {a for a, _ in case["streams"]}
+        cum = case["cum"]
+        removed = 0
+        for sid, (seq, cs) in before.items():
+            seq2, cs2 = after[sid]
+            runs = _runs(cs)
+            keep = [c for r in runs if not _waiting(r, cum) for c in r]
+            removed += sum(len(c[5]) // 2 for r in runs if _waiting(r, cum) for c in r)
+            if sid not in listed:
+                if seq2 != seq:
+                    return f"stream {sid} is not listed by the FORWARD TSN but its expected ssn changed {seq}->{seq2}"
+                if cs2 != keep:
+                    if not any(_waiting(r, cum) for r in runs):
+                        return (f"stream {sid} is not listed and waits for no TSN <= {cum}, yet its reassembly queue changed "
+                                f"({len(cs)} -> {len(cs2)} fragments)")
+                    return f"stream {sid}: prune_chunks kept/removed the wrong fragments"
+            else:
+                if _gt16(seq, seq2) and len(cs) < 30000:
+                    return f"stream {sid}: expected ssn moved backwards {seq}->{seq2}"
+                # what was popped must come from the kept fragments
+                if any(c not in keep for c in cs2):
+                    return f"stream {sid}: a fragment of a skipped message survived or was invented"
+        # integrity of what was delivered: each message is one B…E run of consecutive TSNs of its stream
+        pool = {sid: [c for r in _runs(cs) if not _waiting(r, cum) for c in r] for sid, (seq, cs) in before.items()}
+        for sid, ppid, data in msgs:
+            ok = False
+            cs = pool.get(sid, [])
+            for a in range(len(cs)):
+                if not cs[a][4] & FIRST:
+                    continue
+                b = a
+                while (not cs[b][4] & LAST and b + 1 < len(cs) and cs[b + 1][0] == (cs[b][0] + 1) % M32):
+                    b += 1
+                if cs[b][4] & LAST and "".join(c[5] for c in cs[a:b + 1]) == data.hex() and cs[b][3] == ppid:
+                    ok = True
+                    break
+            if not ok:
+                return f"stream {sid}: delivered {len(data)} bytes that are not one complete B..E run of its reassembly queue"
+        total_before = sum(len(c[5]) // 2 for _, (_, cs) in before.items() for c in cs)
+        total_after = sum(len(c[5]) // 2 for _, (_, cs) in after.items() for c in cs)
+        if delta != total_before - total_after:
+            return f"a_rwnd grew by {delta} but {total_before - total_after} bytes left the reassembly queues"
+        if delta != removed + sum(len(d) for _, _, d in msgs):
+            return "bytes given back != bytes pruned + bytes delivered"
+        # recovery: no ordered stream is headed by an orphan of a skipped message
+        for sid, (seq2, cs2) in after.items():
+            if cs2 and not cs2[0][4] & FIRST and _gte32(cum, (cs2[0][0] - 1) % M32):
+                return f"stream {sid}: the reassembly queue is headed by a fragment whose predecessor (TSN <= {cum}) was skipped"
+        return None
+
+    def label(self, case, impl_out):
+        p = impl_out.split(" ")
+        if len(p) < 7:
+            return impl_out[:24]
+        if _gte32(case["last"], case["cum"]):
+            return "duplicate"
+        return f"freed={'y' if p[4] != '0' else 'n'} msgs={'y' if p[6] != '-' else 'n'} listed={min(len(case['streams']), 2)}"
+
+    def nontrivial(self, case, impl_out):
+        return not _gte32(case["last"], case["cum"])
+
+    def shrink(self, case):
+        for k, (sid, seq, cs) in enumerate(case["ins"]):
+            for i in range(len(cs)):
+                ins = [list(x) for x in case["ins"]]
+                ins[k] = [sid, seq, cs[:i] + cs[i + 1:]]
+                yield dict(case, ins=ins)
+        for i in range(len(case["streams"])):
+            yield dict(case, streams=case["streams"][:i] + case["streams"][i + 1:])
+        for key in ("mis", "dups"):
+            for i in range(len(case[key])):
+                yield dict(case, **{key: case[key][:i] + case[key][i + 1:]})
+
+
+class RxData(Fwd):
+    """`_receive_data_chunk` on arbitrary receiver states vs `rxData` (the DATA half of `rxRun`)."""
+    name = "rxdata"
+    theorems = ["pr_integrity_arrivals", "pop_sound"]
+
+    def corpus(self):
+        return []
+
+    def cases(self, rng, tier):
+        out = []
+        for case in Fwd.cases(self, rng, tier):
+            # the arriving chunk: one that is missing from its stream's queue, a duplicate, or a stale one
+            present = {c[0] for _, _, cs in case["ins"] for c in cs}
+            msgs, _ = _history(rng, False)
+            pool_ = [[c["tsn"], c["sid"], c["ssn"], c["ppid"], c["flags"], c["data"]] for m in msgs for c in m]
+            seen = [c for _, _, cs in case["ins"] for c in cs]
+            c = list(rng.choice(pool_))
+            if seen and rng.random() < 0.7:
+                # the successor / predecessor of something already queued: completes or extends a run
+                base = rng.choice(seen)
+                c = [(base[0] + rng.choice([1, 1, -1, 2])) % M32, base[1], base[2], base[3],
+                     rng.choice([0, LAST, base[4] & UNORD | LAST, base[4] & UNORD | FIRST, base[4]]), c[5]]
+            if seen and rng.random() < 0.1:
+                c = list(rng.choice(seen))
+            mis = [x for x in case["mis"] if x != c[0] or rng.random() < 0.5]
+            # an arriving chunk that is not a duplicate must not already sit in the queue (the code asserts that)
+            if c[0] in present and not (_gte32(case["last"], c[0]) or c[0] in mis):
+                mis = mis + [c[0]]
+            out.append(dict(last=case["last"], mis=mis, dups=case["dups"], chunk=c, ins=case["ins"]))
+        return out
+
+    def model_line(self, case):
+        ls = lambda l: ",".join(str(x) for x in l) or "-"
+        return f"sctppr data {case['last']} {ls(case['mis'])} {ls(case['dups'])} {_rc_show(case['chunk'])} {_ins_show(case['ins'])}"
+
+    def _run(self, case):
+        sim, m, t = _transport()
+        t._last_received_tsn = case["last"]
+        t._sack_misordered = set(case["mis"])
+        t._sack_duplicates = list(case["dups"])
+        t._inbound_streams = {}
+        for sid, seq, cs in case["ins"]:
+            s = m.InboundStream()
+            s.sequence_number = seq
+            for c in cs:
+                s.reassembly.append(self._chunk(m, c))
+            t._inbound_streams[sid] = s
+        msgs = []
+
+        async def receive(stream_id, pp_id, data):
+            msgs.append((stream_id, pp_id, data))
+        t._receive = receive
+        _drive(t._receive_data_chunk(self._chunk(m, case["chunk"])))
+        ins = [[sid, s.sequence_number, [[c.tsn, c.stream_id, c.stream_seq, c.protocol, c.flags, c.user_data.hex()] for c in s.reassembly]]
+               for sid, s in t._inbound_streams.items()]
+        return t, ins, msgs
+
+    @staticmethod
+    def _chunk(m, c):
+        d = m.DataChunk()
+        d.tsn, d.stream_id, d.stream_seq, d.protocol, d.flags, d.user_data = c[0], c[1], c[2], c[3], c[4], bytes.fromhex(c[5])
+        return d
+
+    def impl(self, case):
+        try:
+            t, ins, msgs = self._run(case)
+        except AssertionError:
+            return "crash AssertionError"
+        ls = lambda l: ",".join(str(x) for x in l) or "-"
+        # a set: survivors in the order of the input list, a newly recorded TSN last (as the model appends it)
+        mis = [x for x in case["mis"] + [case["chunk"][0]] if x in t._sack_misordered]
+        mis = [x for i, x in enumerate(mis) if x not in mis[:i]]
+        mm = ",".join(f"{a}.{b}.{c.hex() or '-'}" for a, b, c in msgs) or "-"
+        return f"ok {t._last_received_tsn} {ls(mis)} {ls(t._sack_duplicates)} {_ins_show(ins)} {mm}"
+
+    def oracle(self, case, impl_out):
+        """Integrity: whatever is delivered is one complete B..E run of consecutive TSNs of the stream's queue
+        (including the arriving chunk); other streams are untouched."""
+        if not impl_out.startswith("ok "):
+            return None if impl_out == "crash AssertionError" and any(
+                c[0] == case["chunk"][0] for _, _, cs in case["ins"] for c in cs) else impl_out[:200]
+        t, ins, msgs = self._run(case)
+        c = case["chunk"]
+        before = {sid: (seq, cs) for sid, seq, cs in case["ins"]}
+        after = {sid: (seq, cs) for sid, seq, cs in ins}
+        for sid, (seq, cs) in before.items():
+            if sid != c[1] and after.get(sid) != (seq, cs):
+                return f"a DATA chunk for stream {c[1]} changed stream {sid}"
+        avail = sorted(before.get(c[1], (0, []))[1] + [c], key=lambda x: (x[0] - case["last"]) % M32)
+        for sid, ppid, data in msgs:
+            if sid != c[1]:
+                return f"a DATA chunk for stream {c[1]} delivered a message on stream {sid}"
+            ok = False
+            for a in range(len(avail)):
+                if not avail[a][4] & FIRST:
+                    continue
+                b = a
+                while not avail[b][4] & LAST and b + 1 < len(avail) and avail[b + 1][0] == (avail[b][0] + 1) % M32:
+                    b += 1
+                if avail[b][4] & LAST and "".join(x[5] for x in avail[a:b + 1]) == data.hex():
+                    ok = True
+                    break
+            if not ok:
+                return f"stream {sid}: delivered {len(data)} bytes that are not one complete B..E run of consecutive TSNs"
+        return None
+
+    def label(self, case, impl_out):
+        p = impl_out.split(" ")
+        if len(p) < 6:
+            return impl_out[:24]
+        dup = _gte32(case["last"], case["chunk"][0]) or case["chunk"][0] in case["mis"]
+        return f"dup={int(dup)} msgs={'y' if p[5] != '-' else 'n'}"
+
+    def nontrivial(self, case, impl_out):
+        return True
+
+    def shrink(self, case):
+        for k, (sid, seq, cs) in enumerate(case["ins"]):
+            for i in range(len(cs)):
+                ins = [list(x) for x in case["ins"]]
+                ins[k] = [sid, seq, cs[:i] + cs[i + 1:]]
+                yield dict(case, ins=ins)
+
+
 def components(tier):
-    return [World()]
+    return [World(), Abandon(), AdvAck(), Fwd(), RxData()]
 
 
 def classify_finding(finding, comp_name, case, what):
